@@ -45,11 +45,15 @@ type faultStore struct {
 	delErr  func(key string) error
 	delay   func() time.Duration
 	observe func(kind, key string, before bool) // called with mu held: a safe point to copy the file
+	gate    func(kind, key string)              // called before mu is taken: may park the caller (directed schedules)
 }
 
 func (f *faultStore) Put(key string, value interface{}) error {
 	if f.delay != nil {
 		time.Sleep(f.delay())
+	}
+	if g := f.gate; g != nil {
+		g("put", key)
 	}
 	f.mu.Lock()
 	defer f.mu.Unlock()
@@ -70,6 +74,9 @@ func (f *faultStore) Put(key string, value interface{}) error {
 func (f *faultStore) Delete(key string) error {
 	if f.delay != nil {
 		time.Sleep(f.delay())
+	}
+	if g := f.gate; g != nil {
+		g("delete", key)
 	}
 	f.mu.Lock()
 	defer f.mu.Unlock()
